@@ -409,10 +409,13 @@ func init() {
 	re := []string{"absent", "bare", "display", "quoted", "uripars", "hdrpars", "userpct", "lr-first", "hdrpct", "urihdr", "sips-pw"}
 	for _, kind := range []string{"route", "record-route"} {
 		kind := kind
-		c14Specs[kind] = &EnumSpec{Feats: []Feat{{Name: "e1", Vals: re[1:]}, {Name: "e2", Vals: re}, {Name: "e3", Vals: re}, {Name: "sep", Vals: []string{"comma", "comma-blank"}}},
+		c14Specs[kind] = &EnumSpec{Feats: []Feat{{Name: "e1", Vals: re}, {Name: "e2", Vals: re}, {Name: "e3", Vals: re}, {Name: "sep", Vals: []string{"comma", "comma-blank"}}},
 			Eval: c14EvalRoute(kind), Sample: 500, Seqs: [][]string{{"e1", "e2", "e3"}}}
 		c14Specs[kind].Valid = func(v []int) bool {
 			s := c14Specs[kind]
+			if v[s.idx("e1")] == 0 {
+				return false
+			}
 			if v[s.idx("e2")] == 0 && (v[s.idx("e3")] != 0 || v[s.idx("sep")] != 0) {
 				return false
 			}
@@ -426,6 +429,17 @@ func init() {
 		{Name: "blanks", Vals: []string{"single", "extra"}}}, Eval: c14EvalCSeq, Sample: 10}
 
 	order := []string{"uri", "via", "from", "to", "route", "record-route", "addrspec", "cseq"}
+	// a panic in a Parse*/String call is a violation of its own (in production it kills the goroutine)
+	for _, k := range order {
+		inner := c14Specs[k].Eval
+		kind := k
+		c14Specs[k].Eval = func(v []int) (cl, detail string, nt bool) {
+			if cr := guard(func() { cl, detail, nt = inner(v) }); cr != "" {
+				return kind + "-panic", cr, true
+			}
+			return
+		}
+	}
 	addCheck(&Check{ID: "C14", Level: "exploration",
 		Rule:   "every derivation of a bounded grammar per decoded type (SIP/SIPS URI: user x host x port x all parameter sequences of length 0-3 x header sequences 0-2; Via: sent-protocol x host x port x parameter sequences 0-3 x 1-5 entries; From/To: form x display name x URI x header-parameter sequences 0-3; Route/Record-Route lists of 1-3 entries; Request-URI forms; CSeq), called directly on Parse*/String; laws: decode->encode equals the generator's abstract value component-wise (independent reader), encode-decode-encode idempotent, accessors equal the components the text denotes; non-trivial = decodable value",
 		Assume: []string{"IPv6 references and user parts containing ';' or '?' are generated as the property says and tracked in KNOWN_FINDINGS.txt"},
